@@ -877,6 +877,30 @@ for _p, _inv in (("C04", "M_C04"), ("C06", "M_C06"), ("C08", "M_C08"), ("C12", "
                        FreshIdsOnly=(_p != "C08"), Ids="{1}" if _p == "C08" else "{1, 2}"),
         quick={}, thorough={}, invariants=["TypeOK", _inv], coverage=False, timeout_thorough=2400))
 
+# ------------------------------------------------------------------ chains under an OpenTelemetry layer
+# `otel`: the whole process is traced (trace contexts travel in spans; Channel::call takes them from the current span);
+# `otel-server`: only request streams and handlers are traced, the callers are not (an untraced peer, trace id 0 included).
+# Handlers also report `context::current()`, and in half of the scenarios make their nested call with it.
+for _p in ("C07", "C18"):
+    for _sub in ("otel", "otel-server"):
+        PROPS[_p]["families"].append(dict(chain_family(500, 8000), fixed=lambda tier: [], tag="chain-" + _sub, opts={"sub": _sub}))
+    PROPS[_p]["assumptions"] = PROPS[_p]["assumptions"] + [
+        "tracing subscriber configurations: none, a process-wide OpenTelemetry layer (SDK default ParentBased(AlwaysOn) sampler), and an "
+        "OpenTelemetry layer scoped to the server-side tasks with untraced callers; a request without a trace (id 0) is not required to keep it"]
+
+
+# ------------------------------------------------------------------ the whole stack under a real tokio runtime (System.tla / ObsSys.tla)
+def sys_family(rq, rt):
+    return dict(family="sys", trace_module="Trace_Sys", random_quick=rq, random_thorough=rt, exports=[], no_mech=True, tag="sys")
+
+
+for _p in ("C01", "C02", "C04", "C10", "C12", "C13"):
+    PROPS[_p]["families"].append(sys_family(700, 12000))
+    PROPS[_p]["assumptions"] = PROPS[_p]["assumptions"] + [
+        "sys family: listener -> max_channels_per_key -> max_concurrent_requests_per_channel -> execute -> spawn_incoming and spawned "
+        "clients on a current-thread tokio runtime with a paused clock, run until idle after (batches of) application steps; "
+        "the interleavings are the runtime's, the rules of ObsSys.tla are sound for any of them"]
+
 # ------------------------------------------------------------------ manifest texts
 def _mt(spec, what, design, note_extra=""):
     return dict(
